@@ -1,7 +1,7 @@
 /-
   VModel.EventBuild — executable model of event_builder.go `EventBuilder.Build` (with
-  `toEventReference`, `eventHashFromEventID`), eventcrypto.go `addContentHashesToEvent` and
-  `signEvent`.  Core Lean only.
+  `eventReferencesFrom` / `toEventReference`, `eventReferenceFromEventID`, `eventHashFromEventID`),
+  eventcrypto.go `addContentHashesToEvent` and `signEvent`.  Core Lean only.
 
   Inputs that the Go code draws from its environment are arguments: the time, the 16 random
   characters of a format-1 event ID, and the ed25519 signature over the signing payload (the model
@@ -45,19 +45,85 @@ def partialDecode (alpha : List UInt8) : Bytes → Bytes
     | _, _, _, _ => []
   | rest => (B64.decodeWith alpha rest).getD []
 
-/-- `eventHashFromEventID(id)`: panics on the empty ID (`eventID[1:]`) -/
-def eventHashFromEventID (id : Bytes) : Except Err Bytes :=
+/-- `eventHashFromEventID(id)`: the `$` sigil knocked off, the rest decoded as far as it is base64.  Total: the empty
+    ID has the empty hash (`len(eventID) == 0` is checked; before the fix of defect P1 `eventID[1:]` was a slice-bounds
+    panic on `""`). -/
+def eventHashFromEventID (id : Bytes) : Bytes :=
   match id with
-  | [] => .error (.panic "event_builder.go:eventHashFromEventID eventID[1:]")
+  | [] => []
   | _ :: rest =>
     let alpha := if rest.any (fun c => c == 0x2D || c == 0x5F) then B64.urlAlphabet else B64.stdAlphabet
-    .ok (partialDecode alpha rest)
+    partialDecode alpha rest
 
-/-- `toEventReference([]string)` marshalled: `[id, {"sha256": <unpadded std base64>}]` -/
+/-- `eventReferenceFromEventID(id)` as far as the hash: an ID without the `$` sigil — the empty one included — is an
+    error (`Build` returns it), every other ID gets its hash. -/
+def checkedEventHash (id : Bytes) : Except Err Bytes :=
+  match id with
+  | 0x24 :: _ => .ok (eventHashFromEventID id)
+  | _ => .error errOther
+
+/-- the reference `[id, {"sha256": <unpadded std base64>}]` as `eventReference.MarshalJSON` writes it -/
+def refJSON (id h : Bytes) : JVal := .arr [.str id, .obj [(b!"sha256", .str (B64.encode h))]]
+
+/-- `eventReferencesFrom([]string)` marshalled: `[id, {"sha256": <unpadded std base64>}]` -/
 def refsV1 (ids : List Bytes) : Except Err (List JVal) :=
-  ids.mapM (fun id => match eventHashFromEventID id with
+  ids.mapM (fun id => match checkedEventHash id with
     | .error x => .error x
     | .ok h => .ok (.arr [.str id, .obj [(b!"sha256", .str (B64.encode h))]]))
+
+/-! ### The reference lists of a proto event a REMOTE server chose (defect P1)
+
+`ProtoEvent.PrevEvents` / `AuthEvents` are `interface{}`: a make_join / make_leave / make_knock response or a v3 invite
+request decodes them into whatever JSON the other server sent (`[]interface{}` of strings, of `[id, hashes]` pairs — or
+of anything else).  `EventBuilder.Build` converts them in event format 1 (room versions 1 and 2) with
+`eventReferencesFrom`.  Each Go panic site of the conversion is a branch here; since the fix every one of them is an
+ordinary error (`Build` returns it):
+
+* `[]`            — `ev[0]` on an empty pair          (was: index out of range)
+* `[5, {}]`       — `ev[0].(string)`                  (was: interface conversion panic)
+* `""`, `["", …]` — `eventID[1:]` in `eventHashFromEventID` (was: slice bounds out of range)
+
+An entry that is neither a string nor an array (a number, `null`, an object, `true`) is skipped, as before. -/
+
+/-- one entry of the decoded list: `.ok none` = skipped -/
+def refOfEntry (v : JVal) : Except Err (Option JVal) :=
+  match v with
+  | .str id =>
+    match checkedEventHash id with
+    | .error x => .error x
+    | .ok h => .ok (some (refJSON id h))
+  | .arr [] => .error errOther                      -- `len(ev) == 0`
+  | .arr (.str id :: _) =>
+    match checkedEventHash id with
+    | .error x => .error x
+    | .ok h => .ok (some (refJSON id h))
+  | .arr (_ :: _) => .error errOther                -- `evID, ok = ev[0].(string); !ok`
+  | _ => .ok none
+
+/-- `eventReferencesFrom(data)` for `data` = what `encoding/json` stored in the `interface{}` field (`none` = member
+    absent; absent and `null` are both the nil interface), marshalled -/
+def refsOfJSON (v : Option JVal) : Except Err (List JVal) :=
+  match v with
+  | none => .ok []
+  | some .null => .ok []
+  | some (.arr xs) =>
+    match xs.mapM refOfEntry with
+    | .error x => .error x
+    | .ok rs => .ok (rs.filterMap id)
+  | some _ => .ok []                                  -- `default:` (a string, a number, an object, a boolean)
+
+/-- event format 2 (room versions 3+): `Build` leaves a decoded list as it is; the trusted constructor then reads
+    `prev_events` / `auth_events` as `[]string` (`null` entries read as ""), anything else fails.  `none` = `Build` fails. -/
+def refsV2OfJSON (v : Option JVal) : Option (List JVal) :=
+  match v with
+  | none => some []
+  | some .null => some []
+  | some (.arr xs) =>
+    if xs.all (fun x => match x with
+      | .str _ => true
+      | .null => true
+      | _ => false) then some xs else none
+  | some _ => none
 
 /-- is a `signatures` value what `SignJSON` can read back unchanged: an object of objects of
     canonical unpadded standard base64 strings -/
